@@ -15,6 +15,15 @@ CHECKS = [
              "arithmetic are run through the real grid API and compared with an independent closed-form geometry (basis vectors from the "
              "pitch, cube-coordinate distance, integer ring counting). Exhaustive inside the stated ring bound, sampled outside it.",
      "note": NOTE},
+    {"property_id": "C08",
+     "technique": "runtime monitoring: exhaustive/sampled workload on real grids, blocks and assemblies + 2x2 rotation/reflection oracle on recorded coordinates",
+     "text": "Symmetric equivalents, domain membership and symmetry-line classification of every hex cell within N rings (both orientations) "
+             "and every Cartesian cell within N rings (4 quarter-core variants) are compared with the images of the cell centre under the "
+             "symmetry group computed by an independent rotation/reflection; rotateIndex is checked for all cells x k in [-13,13] plus random "
+             "huge k (rotation of coordinates, additivity, identity at 6, ring preserved); generated hex blocks (multi-index, single, "
+             "free-coordinate children; random 6-vectors on every corner/edge parameter; displacement) and assemblies are rotated by k*60 deg "
+             "with the angle computed three ways and every observable is compared with the rotated original.",
+     "note": NOTE},
 ]
 
 _claimed = {c["property_id"] for c in CHECKS}
